@@ -334,6 +334,9 @@ class Engine(Interp):
                   if dloc is None:
                       out.append(s)
                       continue
+                  if self.hooks.get("store"):
+                      # before the write: the old contents of the destination are still described by the state
+                      self.emit("store", st=s, frame=frame, stmt=stmt, dloc=dloc, val=val, lin=lin, extras=extras)
                   # extras/defs may mention the destination itself (x = x + 1): lin computed before the kill
                   self.write_loc(s, dloc, val, lin, src)
                   if stmt["rv"]["k"] == "agg" and self.hooks.get("aggregate"):
@@ -794,7 +797,7 @@ class Engine(Interp):
 
         def push(bb, s, from_bb=None):
             # drop frame locals that are dead at bb (never address-taken ones: those wait for StorageDead)
-            if from_bb is not None:
+            if from_bb is not None and not self.opt.get("keep_dead_locals"):
                 li = live_in[bb]
                 dead = [k for k in s.cells if k[0] == "L" and k[1] == frame.uid and k[2] not in li and k[2] not in borrowed and k[2] > body.arg_count]
                 for k in dead:
